@@ -10,6 +10,32 @@ use crate::refint::{reference, Outcome};
 use crate::sut::{self, ModernOpts};
 use serde_json::{json, Value};
 
+/// does the source define a defun-inline whose parameter list is not a proper list?
+pub fn inline_with_rest_parameter(src: &str) -> bool {
+    use chialisp::compiler::sexp::SExp;
+    use std::borrow::Borrow;
+    let Ok(forms) = chialisp::compiler::sexp::parse_sexp(sut::loc(), src.bytes()) else {
+        return false;
+    };
+    fn walk(s: &SExp) -> bool {
+        if let Some(l) = s.proper_list() {
+            if l.len() >= 3 {
+                if let SExp::Atom(_, h) = &l[0] {
+                    if h == b"defun-inline" && l[2].proper_list().is_none() {
+                        return true;
+                    }
+                }
+            }
+            return l.iter().any(walk);
+        }
+        if let SExp::Cons(_, a, b) = s {
+            return walk(a.borrow()) || walk(b.borrow());
+        }
+        false
+    }
+    forms.iter().any(|f| walk(f.borrow()))
+}
+
 pub struct C03Prop;
 pub static C03: C03Prop = C03Prop;
 
@@ -182,6 +208,17 @@ impl Prop for C03Prop {
     }
     fn sut_crash_is_violation(&self) -> bool {
         false
+    }
+    fn known(&self, v: &Viol) -> Option<&'static str> {
+        // classic defun-inline is substitution of argument *forms*: a rest parameter (dotted tail
+        // or a bare name as the whole parameter list) receives the list of forms, which is then
+        // compiled as if it were code.  Excused only for classic builds of sources that have such
+        // an inline function.
+        let src = v.case.get("source")?.as_str()?;
+        if v.case.get("dialect").and_then(|d| d.as_str()) == Some("classic") && inline_with_rest_parameter(src) {
+            return Some("classic-inline-rest-parameter-receives-argument-forms");
+        }
+        None
     }
     fn case_timeout(&self) -> (u64, bool) {
         (60, false)
